@@ -91,6 +91,12 @@ func (s *SpokFile) expandGlobs() error {
 	return nil
 }
 
+// ExpandGlob expands a glob pattern relative to the directory of the spokfile
+// and returns the absolute paths of everything it matches.
+func (s *SpokFile) ExpandGlob(pattern string) ([]string, error) {
+	return expandGlob(s.Dir, pattern)
+}
+
 // buildGraph takes in a list of requested tasks, examines their dependencies, constructs
 // and returns the dependency graph.
 func (s *SpokFile) buildGraph(requested ...string) (*dag.Graph[string, task.Task], error) {
